@@ -80,7 +80,9 @@ def do_run(name, tier):
         return 2
     t0 = time.time()
     try:
-        rc, out = sh("./check %s --tier %s" % (pid, tier), cwd=ROOT, timeout=6 * 3600)
+        # evidence of runs on a changed tree is kept apart from the committed evidence of the real tree
+        rc, out = sh("./check %s --tier %s" % (pid, tier), cwd=ROOT, timeout=6 * 3600,
+                     env=dict(os.environ, VERIF_EVIDENCE_DIR=os.path.join(ROOT, ".cache", "seeded-evidence")))
     finally:
         sh("git checkout -- .", cwd="/repo")
     viol = [l for l in out.splitlines() if l.startswith("VIOLATION")]
